@@ -255,6 +255,15 @@ def native_tree_check(kit, text):
     for e in errs:
         if not (0 <= e[0] <= e[1] <= len(b)):
             return False, f"diagnostic range {e[0]}..{e[1]} outside the text"
+    # a tree with an ERROR node or token is always accompanied by a diagnostic
+    ERR = kit.K["ERROR"]
+
+    def has_error(n):
+        if n[0] == ERR:
+            return True
+        return (not isinstance(n[3], str)) and any(has_error(ch) for ch in n[3])
+    if not errs and has_error(tree):
+        return False, "the native tree contains an ERROR node / token but the parse reports no diagnostic"
     return True, ""
 
 
